@@ -57,8 +57,8 @@ theorem macd_report_columns (p1 p2 p3 : Nat) (h1 : 1 ≤ p1) (h12 : p1 ≤ p2) (
 /-- **Known finding, as-is**: the APO column of ApoStrategy.Report is `Shift(apo, SlowPeriod, 0)` while APO
     is aligned at `SlowPeriod − 1`: n + 1 values for n dates. -/
 theorem apo_report_column_too_long (f s : Nat) (h0 : 1 ≤ f) (h1 : f ≤ s) (x : Nat → Nat → α) (n : Nat) (hn : s - 1 ≤ n) :
-    (evalL (envOf x 5 n) (shift s zero (apo f s (sClose : Sig α)))).length = n + 1 := by
-  have hg : Good (apo f s (sClose : Sig α)) (s - 1) 5 := by
+    (evalL (envOf x 5 n) (shift s zero (apo f s two two (sClose : Sig α)))).length = n + 1 := by
+  have hg : Good (apo f s two two (sClose : Sig α)) (s - 1) 5 := by
     simp only [Strat.sClose]; unfold_ind; good_tac
   rw [C05.evalL_shift]; simp [hg.length x n]; omega
 
